@@ -598,6 +598,113 @@ fn finish(run: Run, status: String, steps: Vec<String>, choices: Vec<(Vec<String
     RunOutcome { status, steps, choices, lines: probe::get().all_json(), nondet: false }
 }
 
+/// Free-running execution: no interposition, no serialisation - the actors send straight into the channel the relay reads
+/// (unbounded, as main.rs creates it), inboxes have the capacity this binary was built with (ZV_CAP=1 for the capacity
+/// variant), virtual scripts finish after short random delays on their own. This is the mode in which a send can block.
+/// Nothing is steered, so the only verdicts are those of the observable specification on the recorded events, plus
+/// "no event for 15 s with nothing pending" (every task is blocked: scripts only finish when this driver says so).
+pub fn run_free(cfg: &Cfg, dir: &Path, seed: u64, signals: bool) -> RunOutcome {
+    setup_dir(cfg, dir);
+    let p = probe::get();
+    p.reset(true, false);
+    hemit("cfg", &cfg.id, &[("cfg", cfg.raw.to_string())]);
+    let mut targets = HashMap::new();
+    for i in 1..=cfg.n {
+        targets.insert(tid(i), make_target(cfg, dir, i));
+    }
+    let (a_tx, a_rx) = channel::unbounded();
+    let (term_tx, term_rx) = channel::bounded(1);
+    let watch: WatchOption = cfg.watch.into();
+    let roots: Vec<TargetId> = cfg.roots.iter().map(|r| tid(*r)).collect();
+    let handle = task::spawn(async move {
+        let mut target_actors = TargetActors::new(targets, a_tx, watch);
+        let result = engine::run(roots, watch, &mut target_actors, term_rx, a_rx).await;
+        verif::emit("engine_result", "", &[("ok", result.is_ok().to_string())]);
+        target_actors.terminate().await;
+        verif::emit("engine_done", "", &[("ok", result.is_ok().to_string())]);
+        result.is_ok()
+    });
+    let mut rng = StdRng::seed_from_u64(seed);
+    let mut next = 0usize;
+    let mut pending: Vec<(String, Instant)> = vec![];
+    let mut parked_slow = 0usize;
+    let mut waiting = false;
+    let mut done = false;
+    let mut signalled = false;
+    let mut last_event = Instant::now();
+    let signal_at = if signals { Some(Instant::now() + Duration::from_micros(rng.gen_range(0..4000))) } else { None };
+    let status;
+    loop {
+        let evs = p.take_from(next, Duration::from_millis(1));
+        next += evs.len();
+        if !evs.is_empty() {
+            last_event = Instant::now();
+        }
+        for e in &evs {
+            match e.ev.as_str() {
+                "vbuild_wait" => {
+                    if cfg.slow.contains(&Cfg::idx(&e.t)) {
+                        parked_slow += 1;
+                    } else {
+                        pending.push((e.t.clone(), Instant::now() + Duration::from_micros(rng.gen_range(0..3000))));
+                    }
+                }
+                "root_wait_signal" => waiting = true,
+                "engine_done" => done = true,
+                _ => {}
+            }
+        }
+        if done {
+            let ok = task::block_on(handle);
+            hemit("h_exit", "", &[("status", if ok { "0" } else { "1" }.to_string())]);
+            status = if ok { "exit0" } else { "exit1" }.to_string();
+            break;
+        }
+        let now = Instant::now();
+        let mut k = 0;
+        while k < pending.len() {
+            if pending[k].1 <= now {
+                let (t, _) = pending.remove(k);
+                let fail = cfg.may_fail.contains(&Cfg::idx(&t)) && rng.gen_bool(0.15);
+                hemit("h_finish", &t, &[("outcome", js(if fail { "fail" } else { "ok" }))]);
+                if !fail {
+                    let i = Cfg::idx(&t);
+                    std::fs::write(dir.join(format!("out_t{}.txt", i)), format!("gen {}\n", rng.gen::<u32>())).ok();
+                }
+                let tx = p.sh.lock().unwrap().verdict_tx.get(&t).cloned();
+                if let Some(tx) = tx {
+                    tx.try_send(if fail { Verdict::Fail } else { Verdict::Ok }).ok();
+                }
+            } else {
+                k += 1;
+            }
+        }
+        if let Some(at) = signal_at {
+            if !signalled && now >= at {
+                hemit("h_signal", "", &[]);
+                signalled = true;
+                term_tx.try_send(TerminationMessage).ok();
+            }
+        }
+        let quiet = last_event.elapsed();
+        if pending.is_empty() && quiet > Duration::from_millis(1500) && !signalled && (waiting || cfg.watch || parked_slow > 0) {
+            // legitimately idle: waiting for the user, watching, or only never-ending scripts left
+            hemit("h_end", "", &[("status", js("idle"))]);
+            hemit("h_signal", "", &[]);
+            signalled = true;
+            term_tx.try_send(TerminationMessage).ok();
+            last_event = Instant::now();
+        } else if pending.is_empty() && quiet > Duration::from_secs(15) {
+            hemit("h_stall", "", &[]);
+            status = "stall".to_string();
+            let _ = std::fs::remove_dir_all(dir);
+            return RunOutcome { status, steps: vec![], choices: vec![], lines: probe::get().all_json(), nondet: false };
+        }
+    }
+    let _ = std::fs::remove_dir_all(dir);
+    RunOutcome { status, steps: vec![], choices: vec![], lines: probe::get().all_json(), nondet: false }
+}
+
 // ------------------------------------------------------------------------------------------------
 
 struct RandomChooser {
@@ -717,6 +824,17 @@ pub fn main(job: &Value) -> i32 {
             summary.push(json!({"cfg": cfg.id, "label": label, "status": o.status, "steps": o.steps}));
         };
         match mode {
+            "free" => {
+                for r in 0..runs_per_config {
+                    let s = seed.wrapping_mul(1_000_003).wrapping_add((ci * 7919 + r) as u64);
+                    let o = run_free(cfg, &dir, s, signals && r % 3 == 2);
+                    emit_run(&o, &mut out, "free");
+                    if o.status == "stall" {
+                        stalled = true;
+                        break 'outer;
+                    }
+                }
+            }
             "replay" => {
                 let sched: Vec<String> =
                     cfg.raw["schedule"].as_array().unwrap().iter().map(|x| x.as_str().unwrap().to_string()).collect();
